@@ -654,7 +654,7 @@ func (c *Ctx) panicRole(name string) string {
 				return r
 			}
 		}
-		if rd := p.MustRole("Redefine"); rd != nil && g.Parent() == rd {
+		if rd := p.MustRole("Redefine"); rd != nil && (g.Parent() == rd || (g.Parent() != nil && g == p.GeneratedBody())) {
 			return "Redefine-closure"
 		}
 		return ""
